@@ -47,7 +47,7 @@ def mc_avel(ctx):
 
 def prog_cfg(unit):
     """TLC constants of one register-program trace: the unit is the vector type, e.g. 16x8u"""
-    m = re.match(r'(\d+)x(\d+)([ui])$', unit)
+    m = re.match(r'(\d+)x(\d+)([uif])$', unit)
     n, w, k = int(m.group(1)), int(m.group(2)) // 8, m.group(3)
     return ('SPECIFICATION TraceSpec\nCONSTANTS N = %d\n  W = %d\n  Kind = "%s"\n  LaneDom = {0}\n'
             '  VRegs = {"v0", "v1", "v2", "v3"}\n  KRegs = {"k0", "k1", "k2"}\n  MemSize = %d\n  MaxDepth = 0\n'
@@ -57,7 +57,7 @@ def prog_cfg(unit):
 def prog_traces(ctx):
     """code -> TLC for the composed machine: register programs over live vectors, masks, memory and the rounding
     mode (harness/drv_prog.cpp) replayed as behaviours of spec/Avel.tla by spec/TraceAvel.tla"""
-    n = runner.ordered_traces(ctx, 'drv_prog.cpp', 'prog', INT_GROUPS, 'TraceAvel', '.prog', cfg_for=prog_cfg)
+    n = runner.ordered_traces(ctx, 'drv_prog.cpp', 'prog', INT_GROUPS, 'TraceAvel', '.prog', cfg_for=prog_cfg)      # integer and float vector types
     ctx.notes.append('composed machine (Avel.tla / TraceAvel.tla): %d distinct register-program traces validated' % n)
 
 
@@ -546,8 +546,13 @@ def mc_fpself(ctx):
 
 def _fp(ctx, family):
     ctx.assumptions += FP_ASSUME
-    _with_mc(ctx, lambda: (mc_fpself(ctx), mc_avel(ctx) if family == 'fround' else None),
-             lambda: runner.lane_facts(ctx, 'drv_fp.cpp', family, FP_GROUPS))
+    def conf():
+        runner.lane_facts(ctx, 'drv_fp.cpp', family, FP_GROUPS)
+        if family in ('farith', 'fround'):
+            # float register programs with fesetround steps in between: every lane judged under the rounding mode
+            # the specification's own state holds at that point (composed machine, TraceAvel.tla)
+            prog_traces(ctx)
+    _with_mc(ctx, lambda: (mc_fpself(ctx), mc_avel(ctx) if family == 'fround' else None), conf)
 
 
 def c10(ctx):
